@@ -13,7 +13,7 @@ META = {
         rule=("Random scenario programs (30-300 ops): configuration (capacities 1..128, internal buffer 1..1024, 6 sample rates, 1..8 channels, main-track effects); clocks, listeners, tweener/LFO modulators, send tracks, plain/spatial/nested tracks with chains of all 8 effects (incl. nested delays) and send routes; "
               "static sounds (length 0..5000, slices, loops, reverse, start positions incl. out of range, rates/volumes/pannings fixed or linked to modulators or listener distance, fade-in, delayed/clock start) and streaming sounds; every handle command with random tweens (zero duration, all easings, immediate/delayed/clock start); "
               "effect-handle setters; handle drops; sample-rate changes; callbacks of arbitrary sizes. Sources are full-scale noise so sums exceed +-1. Monitors on every callback: 0 allocation/free events on the audio thread, no panic, <= 5 s thread CPU time (hang), every sample finite and in [-1,1], channels >= 2 silent, "
-              "and (programs without streaming sounds) a second rig with 1 or 3..8 channels run in lock-step: mono == (L+R)/2 and first two channels == stereo, bit-exact. A program is distinct and non-trivial when its (set of op kinds, buffer size, sample rate, channels) is new and it produced non-zero output. Spatial emitters are sometimes placed exactly on an ear of their listener."),
+              "and (programs without streaming sounds) a second rig with 1 or 3..8 channels run in lock-step: mono == (L+R)/2 and first two channels == stereo, bit-exact. A program is distinct and non-trivial when its (set of op kinds, buffer size, sample rate, channels) is new and it produced non-zero output. Spatial emitters are sometimes placed exactly on an ear of their listener. Start delays include Duration::MAX, u64::MAX seconds and 10^9 s."),
         domain="D0 U B of DESIGN.md 2.3; excluded while listed as known findings: distortion drive <= -60 dB, delays shorter than one frame at 8 kHz, reverse with start >= length, SecondsPerTick(0); not generated (diverge by construction): loop gains > 0 dB, expander ratios < 0.25, seek targets beyond 10 s, spatial min >= max distance",
         assumptions=["single-threaded deterministic histories (commands between callbacks); concurrent interleavings are C05/C07/C08's subject", "the CPU-time bound detects hangs and gross overruns, not missed audio deadlines"],
         quick=[rel(30), dict(engine="native-dev", shards=16, budget=12)],
@@ -28,7 +28,7 @@ META = {
         rule=("Random histories (12-40 callbacks of random sizes 1..3*ibs+5, internal buffer 1..333, 4 sample rates): add top-level and nested tracks (depth <= 4) with 0-2 affine probe effects, random send routes and volumes; play/stop probe sounds on any track or the main track; "
               "pause/resume tracks, set track/main volumes (instant tweens), drop tracks (with subtree) and send tracks. Every callback: each live, un-paused probe must be asked for exactly the callback's frames in slices <= ibs with dt == 1/sr (paused/removed ones for 0 frames); "
               "every output frame must equal the documented sum (sound -> effects in order -> x track volume -> parent and send routes -> send effects x send volume -> main effects x main volume) within 2e-5 x sum|contributions|, and exactly 0 when nothing is routed. "
-              "Callbacks in which a resume or volume change takes hold contain a one-chunk ramp and are not compared sample-exactly (counted separately). A case is distinct when (tree/send shape, ibs, sample rate, history length) is new and >= 1 frame was compared. Track volumes include -60 dB and below (a silent track still runs everything beneath it); send-route volumes change with tweens of 0..3 buffers, also on paused tracks. A track's handle may be dropped alone (children kept): the track stays, and keeps sounding, until every track beneath it that the audio thread holds has lost its handle too."),
+              "Callbacks in which a resume or volume change takes hold contain a one-chunk ramp and are not compared sample-exactly (counted separately). A case is distinct when (tree/send shape, ibs, sample rate, history length) is new and >= 1 frame was compared. Track volumes include -60 dB and below (a silent track still runs everything beneath it); send-route volumes change with tweens of 0..3 buffers, also on paused tracks. A track's handle may be dropped alone (children kept): the track stays, and keeps sounding, until every track beneath it that the audio thread holds has lost its handle too. Ramp cases: the volume of the sub-track, its send route, the send track or the main track moved with a linear tween while callbacks of arbitrary sizes are rendered; every frame compared with previous + (current - previous)(i+1)/n in dB over each chunk's own n frames (a route applies its end-of-chunk value), 3e-5 relative."),
         domain="volumes -18..+3 dB, affine effects gain {1,0.5,-0.75,1.25,0.9} offset 0 or +-0.003, up to 3 sends; one pause-or-resume per track per callback interval (cross-kind ordering within an interval is C07's subject)",
         assumptions=["removal timing follows the rule stated in C08: next callback if already picked up, the one after otherwise", "built-in non-linear effects are covered by C13/C14"],
         quick=[rel(25)],
@@ -44,7 +44,7 @@ META = {
               "{resume_at(delayed 0), resume_at(clock that no longer exists), seek_to, seek_by, set_volume, set_playback_rate} x issue gap {0,1,3 callbacks}, every 5th on a finite sound. Random part: up to 40 commands with random fades/delays, fade-in, delayed start, finite sounds, streaming sounds. "
               "Monitor rules per callback: the reported state must be in the set the documented life cycle allows (fade-driven steps complete when their tween completes +-1 callback; clock-scheduled resumes leave WaitingToResume exactly in the buffer in which the observed clock reaches the time; a missing clock cancels to Stopped; Stopped absorbs); "
               "exact silence and frozen position across callbacks spent entirely in Paused/WaitingToResume/Stopped; exactly unity gain when steadily Playing, monotone gain inside fades, gain within [0, unity]; Stopped sounds unloaded at the next callback (num_sounds) and the slot reusable; finite sounds reach Stopped within a frame bound. "
-              "A case is distinct and non-trivial when its observed state trace is new and contains a transition. Additional cases: a streaming sound whose decoder delivers nothing still completes pause/resume/stop fades and is unloaded; after several playback-state commands in one interval the state only moves by fades completing; a clock start time (own or resume_at) on a clock that is not running (never started, paused past the time, stopped) keeps the sound silent / WaitingToResume until the clock is started; a sound on a paused sub-track (or on a child of one) still acknowledges pause/resume/stop at the next callback and a Stopped one is still unloaded, with callbacks of 1-3 buffers."),
+              "A case is distinct and non-trivial when its observed state trace is new and contains a transition. Additional cases: a streaming sound whose decoder delivers nothing still completes pause/resume/stop fades and is unloaded; after several playback-state commands in one interval the state only moves by fades completing; a clock start time (own or resume_at) on a clock that is not running (never started, paused past the time, stopped) keeps the sound silent / WaitingToResume until the clock is started; a sound on a paused sub-track (or on a child of one) still acknowledges pause/resume/stop at the next callback and a Stopped one is still unloaded, with callbacks of 1-3 buffers. A third of the cases run on a device whose internal buffer is three callbacks long (every callback a short chunk): fades, delays, positions and the clock are still counted in the frames actually rendered."),
         exhaustive_quick=True,
         exhaustive_thorough=True,
         domain="at most one state command per callback interval (cross-kind ordering inside one interval is C07's subject); fades 0..6 chunks, delays 0..5 chunks",
@@ -81,7 +81,7 @@ META = {
               "(1e-9 for constant speed; for tweens the interval spanned by the speed at the chunk's boundaries, interpolated in the target's unit), paused clocks bit-identical, stopped clocks zero, ticking() correct. "
               "Monitor 2 (scheduling): a sound start, a volume tween start or a resume_at scheduled for a whole or fractional clock time; the event must begin exactly at the first frame of the internal buffer during which the clock (model: constant speed, start delay, pause window) reaches the time - never later, never while paused or short of it; a dropped clock cancels the waiting sound within 3 callbacks. "
               "Monitor 3 (handle reads): audio thread running callbacks vs a thread calling time() (and stop()), parked at the hooks between the two stores / two loads; all interleavings enumerated depth-first for (callbacks x reads) up to 2x2 (quick) / 3x3 (thorough) plus random schedules of 6x6; every read must equal a value published before or during it and reads must not go backwards while the clock runs. "
-              "A case is distinct when its history class / schedule trace is new. Also stop()+start() and pause()+start() within one interval, and a clock whose speed is mapped from a moving modulator (same-chunk value). Under Miri / TSan the depth-first enumeration is additionally bounded by the shard's time budget (what was not reached is reported as not enumerated)."),
+              "A case is distinct when its history class / schedule trace is new. Also stop()+start() and pause()+start() within one interval, and a clock whose speed is mapped from a moving modulator (same-chunk value). Under Miri / TSan the depth-first enumeration is additionally bounded by the shard's time budget (what was not reached is reported as not enumerated). Monitor 2b: a clock that counted 2^53..2^62 ticks in one buffer and then moves 1/8..1/2 tick per buffer; a sound scheduled 1-3 ticks ahead begins in the buffer in which the clock (read back from the handle, compared ticks first, then fraction) reaches that tick, at most one buffer early."),
         domain="speeds 0.5..3000 ticks/s; excluded while listed as known findings: tweens scheduled on the clock's own time (monitor 1); torn reads are counted and reported as the known finding, any other unexplained read is a violation",
         assumptions=["interleavings are enumerated at hook granularity (between the atomic operations of ClockShared); the operations themselves are atomic", "the other-clock start of a speed tween may be observed one chunk early or late depending on clock update order (modelled as an interval)"],
         quick=[rel(30)],
@@ -114,7 +114,7 @@ META = {
               "free-running stress with random spin delays (1.6M writes quick). Checker: every delivered value has a valid checksum and was written; sequence numbers strictly increase; a read returns the newest command completely written before it began (or one written during it), None only if nothing newer was completely written; the last command is delivered after the writer stops. "
               "Monitor B: for each of the 65 command kinds in the table (static 9, streaming 9 incl. the 3 decoder-side ones, sub/spatial track, send, main, listener 2, clock 3, LFO 5, tweener 1, filter 4, EQ 4, delay 2, distortion 3, reverb 4, compressor 6, volume/panning control) with three distinguishable settings: "
               "issued once -> the observable (output level L/R, position, state, clock time) equals that of a reference scene built with / commanded to that setting; for instantaneous kinds already within the very next callback, also when written before the resource's first callback; burst of two -> only the last; one-shot seeks applied once. "
-              "Pairs of kinds / resources issued in one interval do not interfere. Distinct cases: schedule traces, command kinds. Pair cases: start/pause/stop sequences on one clock (last wins, stop resets, exact time afterwards); commands written between play() and the first callback on main/sub/nested/spatial tracks; send-route volume in the first buffer; same-target tweener sets; same-interval sound state commands; pause/resume commands, one per interval, to a sound on a paused sub-track (acknowledged at once, the last one decides after the track resumes); a streaming sound's seek_by and seek_to written in one interval in either order (exactly one jump, to the seek_to target)."),
+              "Pairs of kinds / resources issued in one interval do not interfere. Distinct cases: schedule traces, command kinds. Pair cases: start/pause/stop sequences on one clock (last wins, stop resets, exact time afterwards); commands written between play() and the first callback on main/sub/nested/spatial tracks; send-route volume in the first buffer; same-target tweener sets; same-interval sound state commands; pause/resume commands, one per interval, to a sound on a paused sub-track (acknowledged at once, the last one decides after the track resumes); a streaming sound's seek_by and seek_to written in one interval in either order (exactly one jump, to the seek_to target); set_volume / pause written to a track whose handle is dropped in the same interval while the track lives on (persisting, or a kept child); a tweener transition that has not begun (delay, clock time, idle clock) called off by set(<the held value>)."),
         domain="scheduler granularity = one CommandWriter::write / CommandReader::read; interleavings inside triple_buffer are sampled by stress/TSan/Miri, not enumerated",
         assumptions=["Monitor A exercises the same kira::command code every handle uses, with a probe payload", "decoder-side commands are observed after the 16384-frame ring of earlier-decoded audio has played out"],
         require_equal=[("B_command_kinds_covered", "B_command_kinds_in_table")],
@@ -131,7 +131,7 @@ META = {
               "after every op all num_*/capacity queries of the manager and of every live track handle must equal the shadow model (removal at the next callback, at the one after if the resource had not been picked up) and never exceed the capacity; no probe sound/effect/modulator may be destroyed while its thread is inside a callback; "
               "at teardown created == destroyed, none twice. Stale ids: after the slot of a removed clock / modulator / listener / send track is reused, what referenced the old id behaves as missing (waiting sound Stopped and silent, parameter holds its value, spatial track silent, route feeds nothing). "
               "Concurrency: game thread creating/dropping clocks vs audio thread callbacks, parked at the res.* hooks (try_reserve, insert before/after draining the unused ring, between the remove pass and the refill loop): interleavings enumerated depth-first (bounded per shard) - results must be linearizable against [alive, alive+pending] and counts within capacity; "
-              "free-running stress with an audio thread. A history is distinct and non-trivial when at least one slot was freed and reused. Histories include spatial tracks, child tracks dropped with their parent, pause/resume of tracks, and plays of sound data whose into_sound fails (no slot may be used up)."),
+              "free-running stress with an audio thread. A history is distinct and non-trivial when at least one slot was freed and reused. Histories include spatial tracks, child tracks dropped with their parent, pause/resume of tracks, and plays of sound data whose into_sound fails (no slot may be used up). Chain cases: top -> middle -> leaf (or a persisting child with an unfinished sound), handles dropped in every order at callback boundaries; num_sub_tracks() stays 1, nothing beneath is destroyed and a second top-level track is refused (capacity 1) while any track of the chain is kept; afterwards the slot is reusable and everything was destroyed off the audio thread."),
         domain="capacities {0,1,2,3,128}; nested tracks and persistence rules are C12's subject",
         assumptions=["Clock and Listener are kira-internal types: their destruction thread is not observable through a probe (sounds, effects and modulators are)", "schedule enumeration is capped per shard (counts and completeness flags are in the evidence)"],
         quick=[rel(30)],
@@ -146,7 +146,7 @@ META = {
         rule=("Random pairs: noise content of length 0..24k (quick) / 40k (thorough) frames (crossing the 16384-frame ring), slices, start positions, loop regions (incl. to the end), rates {1, 0, 0.1..4}, volume/panning, fade-in, delayed start, device/sound rate pairs, "
               "decoder packet plans (1, fixed 1..4096, variable, 4096/1/333) and seek granularities {1,8,64,1000,4096}; chunk sizes 1..512; random histories of set_volume/set_panning/set_playback_rate/pause/resume/resume_at(delayed)/stop with random tweens applied to both handles (no seeks). "
               "Before every callback the harness waits until the decoder has filled its ring or ended (two fresh dec.wait hook hits). Compared after every callback: every output frame (1e-6 x scale), state(), and until Stopped position() within one frame along the transport path (cyclic in a loop). "
-              "A case is distinct and non-trivial when (packet plan class, seek granularity, loop?, slice?, rate class, longer-than-ring?) is new and >= 1 non-silent frame was compared."),
+              "A case is distinct and non-trivial when (packet plan class, seek granularity, loop?, slice?, rate class, longer-than-ring?) is new and >= 1 non-silent frame was compared. A third of the sounds longer than the ring run at rate 1 with callbacks of 381 or 5461 frames (divisors of 16383), so that a callback begins exactly when the 16384-slot ring wraps."),
         domain="valid slices and loop regions (start<end<=len); non-negative rates; no seek commands (per the property)",
         assumptions=["a pair whose decoder does not reach ring-full/end within 5 s wall is inconclusive (counted, never a violation)", "ScriptedDecoder implements the public Decoder trait; seeks land on multiples of the granularity at or before the request"],
         quick=[rel(40)],
@@ -162,7 +162,7 @@ META = {
               "Random part: scene in {main, sub-track, rejected by a full track, paused track, track dropped, manager dropped, handle dropped, stopped with fade, natural end} x pace {ahead, slow decode (300 us), stalled (gated through dec.step permits)} x fault x loop region x stop/drop moment. "
               "Oracles: after an error state()==Stopped within 2 callbacks, unloaded, silent, pop_error() == the first injected error; decoder Drop observed (thread ended) or else >= 300 further decode-loop iterations with nothing to do = violation, neither within 4 s = inconclusive; "
               "> 2000 loop re-runs after an error = busy spin; index-coded frames strictly consecutive (mod loop), across a gap of silence resume within one frame; no decoder destroyed inside a callback; no allocation in callbacks. "
-              "A case is distinct and counted when its fault was actually reached (the decoder counted the failing call) or it is a fault-free life-cycle case with a new (scene, pace, loop) combination. Streams longer than the 16384-frame ring; errors arriving while the sound itself is paused or waits for a clock; a decoder thread that neither ends nor polls while a reference thread completes 1500 sleeps of 1 ms is a violation. stop() written after pause()/resume()/resume_at() in the same interval must still stop the sound (Stopped within 3 callbacks, thread ends)."),
+              "A case is distinct and counted when its fault was actually reached (the decoder counted the failing call) or it is a fault-free life-cycle case with a new (scene, pace, loop) combination. Streams longer than the 16384-frame ring; errors arriving while the sound itself is paused or waits for a clock; a decoder thread that neither ends nor polls while a reference thread completes 1500 sleeps of 1 ms is a violation. stop() written after pause()/resume()/resume_at() in the same interval must still stop the sound (Stopped within 3 callbacks, thread ends). Start positions in the middle, exactly at and past the end of the data, empty streams, and seek_to / seek_by to or past the end while the decoder thread is alive (no loop): the sound ends, the thread ends."),
         exhaustive_quick=True,
         exhaustive_thorough=True,
         domain="streams of 1..3000 frames (40000 for confirmations), packets 1..4096; excluded while listed as known findings: scene 'track dropped' (thread-end verdict) and multi-frame resume skips of starving paces (counted instead)",
@@ -193,7 +193,7 @@ META = {
         rule=("(a) Trees of 1-6 tracks (nested, persist_until_sounds_finish on/off) with 0-2 looping or finite DC sounds per track; histories of instant pause/resume and resume_at(delayed 2-9 chunks) on any node, handle drops of any node, sound stops, callbacks of 1-3 chunks. After every callback: the set of audible sounds (decoded from the summed DC level) equals the model "
               "(a paused track silences its whole subtree exactly; a dropped track is silent at the next callback unless it persists until its sounds have finished and been unloaded, or a descendant track is still alive); positions of sounds under a steadily paused track are constant and advance by exactly the callback's frames otherwise (continue exactly where they froze); "
               "num_sub_tracks of the manager and of every live handle equal the model; state() equals Playing/Paused. Fades requested while an ancestor is paused are deferred (they do not advance in a frozen subtree). "
-              "(b) a sound with a start delay on a (nested) track paused for P chunks with a fade becomes audible P chunks later (+- the fade and one chunk). (c) random pause/resume/resume_at(delayed | clock | clock later dropped) histories with fades: state() never panics and is one of the five states. A case is distinct per (kind, index). Also pause on a track that is waiting to resume (the scheduled resume is cancelled) and pauses whose fade has a delayed start (the track plays on until then)."),
+              "(b) a sound with a start delay on a (nested) track paused for P chunks with a fade becomes audible P chunks later (+- the fade and one chunk). (c) random pause/resume/resume_at(delayed | clock | clock later dropped) histories with fades: state() never panics and is one of the five states. A case is distinct per (kind, index). Also pause on a track that is waiting to resume (the scheduled resume is cancelled) and pauses whose fade has a delayed start (the track plays on until then). 40 % of the delay / fade cases run on a device whose internal buffer is three callbacks long (short chunks): track fades and start delays are counted in rendered frames."),
         domain="instant fades in (a); fades 0..3 chunks in (b),(c); excluded while listed as known finding: dropping the clock a resume_at waits on (state() then panics)",
         assumptions=["a Stopped sound is unloaded at the next callback and the persisting track is examined before that, so it is removed one callback later", "DC levels 2^-(b+2) sum exactly in f32"],
         quick=[rel(30)],
@@ -224,7 +224,7 @@ META = {
         rule=("Random parameter cells x 8 sample rates. Filter: 3 sine probes vs analytic |H| of the bilinear (pre-warped) SVF, plus mapping-free checks at the requested hertz: LP/HP gains cross at the cutoff, notch nulls there, band-pass peaks there, LP DC gain and HP Nyquist gain 0 dB +-0.05. "
               "EQ: bell centre gain / low-shelf DC gain / high-shelf Nyquist gain == requested dB +-0.1 with the opposite band at 0 dB, 3 sine probes vs SvfLinearTrapOptimised2 response. Volume/panning/distortion: point-wise against the dB, equal-power and clip laws (4e-6). "
               "Delay: two impulses -> echoes at exact multiples of floor(delay*sr) frames scaled by (feedback x nested volume)^k and the sqrt mix law (1e-5). Reverb: sample-by-sample against an independent f64 Freeverb network (tunings x sr/44100, spread 23, 8 combs, 4 all-passes) and tail-energy decay for feedback < 1. "
-              "Compressor: below threshold unchanged, steady-state reduction (level-threshold)(1-1/ratio) dB +-0.1, attack/release reach 1-1/e within +-5 %. A case is distinct when its (effect, mode/kind, sample rate, coarse parameter cell) is new. Compressor attack/release shorter than a sample period against the one-pole model; a hard/soft clip in a delay's feedback loop (delay line -> effect -> feedback gain). One compressor case in four at the far end of the ranges: thresholds down to -90 dB with ratios 8..200 (reductions of 60 dB and more) and make-up gains -70..+40 dB; test levels are plain 10^(dB/20)."),
+              "Compressor: below threshold unchanged, steady-state reduction (level-threshold)(1-1/ratio) dB +-0.1, attack/release reach 1-1/e within +-5 %. A case is distinct when its (effect, mode/kind, sample rate, coarse parameter cell) is new. Compressor attack/release shorter than a sample period against the one-pole model; a hard/soft clip in a delay's feedback loop (delay line -> effect -> feedback gain). One compressor case in four at the far end of the ranges: thresholds down to -90 dB with ratios 8..200 (reductions of 60 dB and more) and make-up gains -70..+40 dB; test levels are plain 10^(dB/20). A low-pass filter in the delay's feedback loop, input cut into slices of 1..ibs frames: compared frame by frame (2e-4) with a model line whose reads pass, once and in order, through a second instance of the same filter."),
         domain="cutoffs 40 Hz..0.45 sr, resonance 0..0.85, Q 0.3..8, gains +-24 dB, delays 1..3000 frames, feedback <= 0 dB, reverb feedback <= 0.98, compressor ratio 1..50, attack 2..100 ms, release 5..300 ms; measurement domains are narrower than C13's so that settling fits the run length",
         assumptions=["reference models were written from the cited sources (Simper/Cytomic SVF papers, Freeverb) and from kira's documentation, not from kira's code paths; the resonance->k mapping (k = 2 - 1.9 res) is taken from the cited baseplug example",
                      "sine gains are measured by quadrature over a whole number of periods after 12 time constants of settling"],
@@ -241,7 +241,7 @@ META = {
               "Judged: strength 0 leaves the stereo balance unchanged (1e-5); gain exactly 1 inside min and exactly 0 beyond max; gain equal (2e-4) for another direction and listener orientation at the same distance; non-increasing (1e-7) along a 12-point radial sweep; ear gains after removing the attenuation within [1-strength, 1] (1e-3); "
               "left >= right for emitters on the listener's left (and conversely); mirroring the emitter through the median plane swaps the ears (5e-4); a random rotation+translation of listener and emitter together leaves the output unchanged (2e-3); a dropped or never-existing listener gives exact silence from the next callback; "
               "a VolumeControl driven by Value::FromListenerDistance outputs amplitude(map(distance)) (2e-4) on the spatial track itself, on a non-spatial descendant (parent's distance) and on a nested spatial track (its own distance); during position/orientation tweens output stays finite and afterwards equals a static scene at the final poses. "
-              "0 allocations in callbacks. A case is distinct when (distance zone, strength, easing on/off, source balance, identity orientation | history kind, variant) is new. The attenuation curve itself (0 dB at min, -60 dB at max, easing applied to 1 - relative distance); emitters exactly on an ear; the listener rule for every attenuation/panning combination; distance mappings installed through an effect handle, then the emitter moves."),
+              "0 allocations in callbacks. A case is distinct when (distance zone, strength, easing on/off, source balance, identity orientation | history kind, variant) is new. The attenuation curve itself (0 dB at min, -60 dB at max, easing applied to 1 - relative distance); emitters exactly on an ear; the listener rule for every attenuation/panning combination; distance mappings installed through an effect handle, then the emitter moves. Every other rendering of a static scene uses an internal buffer of one frame or callbacks ending in a one-frame chunk; a quarter of the distance mappings have a descending input range."),
         domain="coordinates within +-50 (+ distances up to 3 x max), min < max distance; one listener per scene",
         assumptions=["relations are those stated in the property; the panning law itself is not modelled, so a different law that keeps all relations passes",
                      "tolerances absorb f32 rounding of glam quaternion products for coordinates up to ~10^2"],
@@ -258,7 +258,7 @@ META = {
               "(A') for each of the 7 add-track paths, all interleavings (depth-first over the controlled scheduler, yield points game.add, hook track.add.loaded, audio.change, audio.cb) of one add call with 1 or 2 {rate change, callback} pairs on the renderer thread; same invariant. "
               "(B) random cells (rate R1 in 8 rates 8k..192k, optional change to R2 at a callback boundary 2..30 ms in, internal buffer 16..128, random callback sizes): a tone keeps its duration (+-5 sound frames + 4 device frames) and mean-crossing count (+-3); a sound scheduled at clock tick k starts at k/tps s (+- one internal chunk); a linear -40 dB volume tween of D s passes -20 dB at D/2 and ends at D (+- one chunk); "
               "a wet delay of T s on main/top/nested (plain, with-effect or 2 levels deep group parents)/send/spatial/nested-spatial tracks, for the orders add-callback-change, add-change-callback and change-add-callback, repeats a 2 ms burst at k*floor(T*R)/R s (+-3 frames, k <= 4); low/high/band-pass gain at the cutoff agrees (0.25 dB) between early/late windows, before/after a change and another device rate. "
-              "A case is distinct when its (history length, op set) / (race path, event order) / (measurement kind, R1, R2) is new. A probe effect inside a delay's feedback loop is part of the history alphabet; the reverb's first reflections arrive after 1116/44100 s (left) and 1139/44100 s (right) at every rate. The delay holding the probe has a line of 5 ms, 40 ms, 0 or 10 us (the same number of frames at both rates) and the probe may sit one delay deeper."),
+              "A case is distinct when its (history length, op set) / (race path, event order) / (measurement kind, R1, R2) is new. A probe effect inside a delay's feedback loop is part of the history alphabet; the reverb's first reflections arrive after 1116/44100 s (left) and 1139/44100 s (right) at every rate. The delay holding the probe has a line of 5 ms, 40 ms, 0 or 10 us (the same number of frames at both rates) and the probe may sit one delay deeper. The alphabet includes dropping the handle of a track that has children (it lives on and must learn later rate changes); a compressor that has already run reaches 63 % of its final reduction one attack time (8-40 ms, +-7 %) after a loud signal begins, at the rate then in force."),
         domain="rates 8000..192000 (8 values); tone frequencies <= min(sound rate, device rate)/10; delays 4..30 ms; filter cutoffs 200..1500 Hz, resonance <= 0.6; the rate change is applied between callbacks by the thread that owns the renderer (as the cpal backend does)",
         assumptions=["the rate-in-force invariant is judged on a harness Effect implementation; built-in effects are covered by the delay/filter measurements",
                      "reverb and compressor time constants are not measured here (C14 measures them per rate)"],
@@ -276,7 +276,7 @@ META = {
               "histories of 4-14 callbacks of random sizes (sr 1000/8000/44100, internal buffer 1/4/16/50/128) with handle commands between callbacks: tweener set, LFO set_frequency/amplitude/offset (fixed or linked targets, tweens incl. zero duration), set_waveform, set_phase, drops of any modulator, late additions. "
               "Every chunk: each linked parameter must lie in the image of the model's value (an exact point, or an interval while an LFO's frequency is changing) of the SAME chunk (1e-9 relative; 2e-5 for the audible gain at the chunk's last frame); parameters of removed modulators hold bit-exactly; the effect must see the master modulator already updated for this chunk; "
               "every probe modulator is updated exactly once per chunk with dt = frames/sample rate. Constant-parameter LFOs are additionally compared with the analytic waveform at phase0/2pi + f t and with offset +- |amplitude|. "
-              "Reads whose value the model cannot know (downstream of an interval) are counted separately, not judged. A dedicated case re-links an LFO to a later-created tweener (known finding). A case is distinct when (modulator count, event kinds, sound present, buffer size) is new. A clock whose speed is mapped from a moving modulator advances by the same chunk's value; LFOs faster than the chunk rate and starting phases of several turns."),
+              "Reads whose value the model cannot know (downstream of an interval) are counted separately, not judged. A dedicated case re-links an LFO to a later-created tweener (known finding). A case is distinct when (modulator count, event kinds, sound present, buffer size) is new. A clock whose speed is mapped from a moving modulator advances by the same chunk's value; LFOs faster than the chunk rate and starting phases of several turns. A tweener transition scheduled with a delay, a clock time or an idle clock and called off, before it begins, by set(<exactly the held value>): the tweener stays there in every later chunk."),
         domain="frequencies 0..0.35/chunk duration (so adjacent chunks differ), amplitudes/offsets in [-2,2], mapping ranges within [-10,10], tweens 0..6 chunks, immediate start; links only to earlier-created modulators except in the dedicated forward-link case",
         assumptions=["while an LFO's frequency is being tweened any integration rule between the chunk's two end frequencies is accepted", "tween start times other than Immediate are C06's subject"],
         quick=[rel(25)],
